@@ -465,14 +465,9 @@ def r2e_predicates(prog, run, par):
                 if kind != 'attribute':
                     bad = (kind, name, 'the writer is not required to emit it')
                     break
-                # enumerators the predicate exempts: "hasAttribute(name) || <test naming an enumerator>"
-                exempt = set()
-                for j, m in enumerate(g.nodes):
-                    bo = g.binop(j)
-                    if bo and bo[0] == '||':
-                        for x, y in ((bo[1], bo[2]), (bo[2], bo[1])):
-                            if any(g.nodes[z]['k'] == 'call' and (g.cname(g.nodes[z]) or '') == 'QDomElement::hasAttribute' and g.strval(g.nodes[z]['args'][0]) == name for z in g.walk(x)):
-                                exempt |= {g.nodes[z]['name'] for z in g.walk(y) if g.nodes[z]['k'] == 'enum'}
+                # enumerators the predicate exempts: evaluate the predicate with the attribute absent, once per enumerator of the type its tag tests name
+                # (a tag-name comparison with typeToString(E') is true exactly in the world of E'); E is exempt when a return that is reachable there can be true
+                exempt = _exempt_enumerators(prog, g, name)
                 worlds = [None]
                 tfield = None
                 if exempt:
@@ -519,4 +514,56 @@ def _guarded_nodes(f, call):
             for s_ in b['succs'][:1]:
                 if s_ is not None:
                     out += list(f.blocks[s_]['elems'])
+    return out
+
+
+def _exempt_enumerators(prog, g, attr):
+    mentioned = sorted({n.get('enum') for n in g.nodes if n['k'] == 'enum' and n.get('enum')})
+    if len(mentioned) != 1 or mentioned[0] not in prog.enums:
+        return set()
+    en = prog.enums[mentioned[0]]
+    out = set()
+    for e_ in en['enumerators']:
+        world = en['qname'] + '::' + e_['name']
+
+        def derives_from_tag(f, nid, depth=0):
+            for j in f.walk(nid):
+                m = f.nodes[j]
+                if m['k'] == 'call' and (f.cname(m) or '') == 'QDomElement::tagName':
+                    return True
+                if m['k'] == 'var' and m.get('vk') == 'local' and depth < 3:
+                    d = f.single_def(m.get('decl'))
+                    if d is not None and derives_from_tag(f, d, depth + 1):
+                        return True
+            return False
+
+        def custom(f, nid, st, world=world):
+            m = f.nodes[nid]
+            if m['k'] == 'call':
+                cn = f.cname(m) or ''
+                if cn in ('QDomElement::hasAttribute', 'QDomElement::hasAttributeNS') and m.get('args') and f.strval(m['args'][0]) == attr:
+                    return (False,)
+                if (f.sym(m) or {}).get('name') in ('has_value', 'operator bool') and m.get('obj') is not None and derives_from_tag(f, m['obj']):
+                    return (True,)          # the tag names some element of the class
+            bo = f.binop(nid)
+            if bo and bo[0] in ('==', '!='):
+                for x, y in ((bo[1], bo[2]), (bo[2], bo[1])):
+                    ens = [f.nodes[j]['name'] for j in f.walk(x) if f.nodes[j]['k'] == 'enum']
+                    if len(ens) == 1 and derives_from_tag(f, y):
+                        return ((ens[0] == world) == (bo[0] == '=='),)
+                if any((f.cname(f.nodes[j]) or '') == 'QDomNode::namespaceURI' for x in bo[1:] for j in f.walk(x) if f.nodes[j]['k'] == 'call'):
+                    return (bo[0] == '==',)
+            return None
+        ev = cfgx.Evaluator(g, {}, custom=custom, prog=prog)
+        reach = cfgx.reachable_blocks(g, lambda f, c, st: ev.ev(c, st))
+        can_accept = False
+        for bid in reach:
+            for eid in g.blocks[bid]['elems']:
+                m = g.nodes[eid]
+                if m['k'] == 'ret' and 'e' in m:
+                    v = ev.ev(m['e'])
+                    if v is not False:
+                        can_accept = True
+        if can_accept:
+            out.add(world)
     return out
